@@ -16,7 +16,8 @@ RULE = ('One solved 2- or 3-component PRISM object (C01 generator without MS, fa
         'directCorr / omega to the other space, solve(guess=own x) while omega is in Fourier space}. After every operation the returned '
         'value is compared with the value the same call returns on a fresh, identically solved object on which nothing else was called '
         '(1e-9 of the function scale before any re-solve, 1e-6 after one; pmf where g > 1e-3), no exception is tolerated, and omega / '
-        'totalCorr / directCorr brought to a common space on copies must equal the post-solve snapshot. After every solve, cost(x) of '
+        'totalCorr / directCorr brought to a common space on copies must equal the post-solve snapshot, and the last four returned objects must still hold the values '
+        'they had when they were returned. After every solve, cost(x) of '
         'a fresh object at the returned x must reproduce the stored arrays bit for bit. Sub-check "pairs" enumerates every ordered '
         'pair of operations on three fixed systems. Non-trivial = history with >= 2 distinct functions and a repeat, a user transform '
         'or a re-solve (history) / every enumerated ordered pair (pairs); distinct = hash of (system, trace).')
@@ -165,7 +166,14 @@ def do_call(st_, name, kw, out, sig):
     ref = reference(st_, name, kw)
     spaces = tuple(str(getattr(st_.pr, w).space).split('.')[-1] for w in ARRAYS)
     try:
-        got = as_arrays(S.quiet(getattr(P.calculate, name), st_.pr, **kw), st_.types)
+        raw = S.quiet(getattr(P.calculate, name), st_.pr, **kw)
+        got = as_arrays(raw, st_.types)
+        # keep the returned object: a value handed to the user must not change when other functions are called later
+        kept = getattr(st_, 'kept', None)
+        if kept is None:
+            kept = st_.kept = []
+        kept.append((name + canon(kw), raw, {k_: v.copy() for k_, v in got.items()}))
+        del kept[:-4]
     except Exception as exc:   # noqa -- "no call raises merely because an array is in the other space"
         out.fail(sig + name + '/raises-' + type(exc).__name__, '%s(%s) raised %s: %s with (totalCorr, directCorr, omega) in spaces %s after history %s' % (
             name, kw, type(exc).__name__, exc, spaces, st_.called[-6:]))
@@ -236,6 +244,12 @@ def do_resolve(st_, out, sig):
 
 
 def invariant(st_, out, sig):
+    for label, raw, snap in getattr(st_, 'kept', []):
+        now = as_arrays(raw, st_.types)
+        for k_, v in snap.items():
+            if k_ not in now or now[k_].shape != v.shape or not np.array_equal(now[k_], v, equal_nan=True):
+                out.fail(sig + 'earlier-result-changed-by-later-call', 'a value returned earlier by %s changed after later operations (history %s)' % (label, st_.called[-6:]))
+                return
     tol = 1e-6 if st_.resolved else 1e-9
     for w in ARRAYS:
         if w == 'omega' or not st_.resolved or True:
@@ -382,7 +396,7 @@ class Pairs(Sub):
         st_ = State()
         st_.__dict__.update(base.__dict__)
         st_.pr = copy.deepcopy(base.fresh)
-        st_.resolved, st_.called, st_.ntransform, st_.omega_touched = 0, [], 0, False
+        st_.resolved, st_.called, st_.ntransform, st_.omega_touched, st_.kept = 0, [], 0, False, []
         for op in spec['trace']:
             if op['op'] == 'resolve' and not can_resolve(st_):
                 continue
